@@ -213,3 +213,94 @@ theorem InvAR.front {s : BSt} (h : InvAR s) (f : FOp) : InvAR (applyFront s f).1
   | query => exact hr
 
 end Backend.PA
+
+namespace Backend.PA
+open Backend Spsc
+
+theorem InvR.of_th {s s' : BSt} (h : InvR s)
+    (e : ∀ j, (s'.th j).removed = (s.th j).removed ∧ (s'.th j).fail = (s.th j).fail) : InvR s' :=
+  ⟨fun j hj => by rw [(e j).2]; exact h.zero j ((e j).1 ▸ hj)⟩
+
+theorem readOne_rf (s : BSt) (i : Nat) (st : Stmt) (rest : List Stmt) (j : Nat) :
+    ((readOne s i st rest).th j).removed = (s.th j).removed ∧ ((readOne s i st rest).th j).fail = (s.th j).fail := by
+  have e1 : ∀ j, ((s.setTh i (fun t => { t with q := (qPrepareRead s.cfg (s.th i).q).1 })).th j).removed = (s.th j).removed ∧
+      ((s.setTh i (fun t => { t with q := (qPrepareRead s.cfg (s.th i).q).1 })).th j).fail = (s.th j).fail := by
+    intro j; rw [th_setTh]; split <;> exact ⟨rfl, rfl⟩
+  have key : ∀ s2 : BSt, (∀ j, (s2.th j).removed = (s.th j).removed ∧ (s2.th j).fail = (s.th j).fail) →
+      ((s2.setTh i (fun t => { t with q := qFinishRead s2.cfg t.q st.size, qStmts := rest, buf := t.buf ++ [st] })).th j).removed =
+        (s.th j).removed ∧
+      ((s2.setTh i (fun t => { t with q := qFinishRead s2.cfg t.q st.size, qStmts := rest, buf := t.buf ++ [st] })).th j).fail =
+        (s.th j).fail := by
+    intro s2 h2
+    rw [th_setTh]; split
+    · exact h2 j
+    · exact h2 j
+  unfold PA.readOne
+  dsimp only
+  split
+  · exact key _ (fun j => e1 j)
+  · exact key _ e1
+
+theorem popStep_rf (s : BSt) (i : Nat) (st : Stmt) (rest : List Stmt) (j : Nat) :
+    ((popStep s i st rest).th j).removed = (s.th j).removed ∧ ((popStep s i st rest).th j).fail = (s.th j).fail := by
+  have c := processEvent_core s st
+  have key : ∀ s2 : BSt, s2.ths = s.ths →
+      (({ s2.setTh i (fun t => { t with buf := rest, popped := t.popped ++ [st] }) with popLog := st :: s2.popLog } : BSt).th j).removed =
+        (s.th j).removed ∧
+      (({ s2.setTh i (fun t => { t with buf := rest, popped := t.popped ++ [st] }) with popLog := st :: s2.popLog } : BSt).th j).fail =
+        (s.th j).fail := by
+    intro s2 h2
+    show ((s2.setTh i _).th j).removed = _ ∧ ((s2.setTh i _).th j).fail = _
+    rw [th_setTh, th_of_ths_eq h2]; split <;> exact ⟨rfl, rfl⟩
+  unfold popStep
+  dsimp only
+  split
+  · exact key _ c.ths
+  · exact key _ c.ths
+
+/-- the repaired clean-up (`cleanupKeepsUnreported`) together with the two invariants -/
+structure InvK (s : BSt) : Prop where
+  flag : s.cfg.cleanupKeepsUnreported = true
+  a : InvA s
+  r : InvR s
+
+theorem InvK.closed : Closed InvK where
+  frame := fun s s' h f => ⟨f.cfg ▸ h.flag, h.a.frame f, h.r.of_ths f.ths⟩
+  refresh := fun s h => by
+    refine ⟨?_, h.a.refresh, ?_⟩
+    · unfold refreshCache; split <;> exact h.flag
+    · unfold refreshCache; split
+      · exact h.r.of_ths rfl
+      · exact h.r
+  ctxEmpty := fun s i h => ⟨h.flag, h.a.ctxEmpty i, by
+    rw [ctxEmpty_fst]; exact h.r.setTh_same i _ (fun _ => ⟨rfl, rfl⟩)⟩
+  dropCtx := fun s i h hv he hz => by
+    refine ⟨h.flag, h.a.dropCtx i hv he, ?_⟩
+    unfold PA.dropCtx
+    have h1 : InvR (ctxEmpty s i).1 := by
+      rw [ctxEmpty_fst]; exact h.r.setTh_same i _ (fun _ => ⟨rfl, rfl⟩)
+    have hf1 : ((ctxEmpty s i).1.th i).fail = 0 := by
+      rw [ctxEmpty_fst, th_setTh]; split <;> exact hz h.flag
+    refine ⟨fun j hj => ?_⟩
+    rw [th_setTh] at hj ⊢
+    split
+    · next hc => rw [hc.1]; exact hf1
+    · next hc => rw [if_neg hc] at hj; exact h1.zero j hj
+  prepRead := fun s i h => ⟨h.flag, InvA.closed.prepRead s i h.a, h.r.setTh_same i _ (fun _ => ⟨rfl, rfl⟩)⟩
+  commitRead := fun s i h => ⟨h.flag, InvA.closed.commitRead s i h.a, h.r.setTh_same i _ (fun _ => ⟨rfl, rfl⟩)⟩
+  readOne := fun s i st rest h hq hr => by
+    refine ⟨?_, h.a.readOne i st rest hq, h.r.of_th (readOne_rf s i st rest)⟩
+    unfold PA.readOne; dsimp only; split <;> exact h.flag
+  pop := fun s i st rest h hb => by
+    have c := processEvent_core s st
+    refine ⟨?_, h.a.pop i st rest hb, h.r.of_th (popStep_rf s i st rest)⟩
+    unfold popStep; dsimp only; split <;> exact c.cfg ▸ h.flag
+  failReset := fun s i h _ => by
+    refine ⟨h.flag, h.a.failReset i, ?_⟩
+    unfold PA.failReset
+    exact InvR.of_ths (h.r.setTh i (fun t => { t with fail := 0 }) (fun hr => ⟨hr, Nat.zero_le _⟩)) rfl
+  front := fun s f h => by
+    have := InvAR.front ⟨h.a, h.r⟩ f
+    exact ⟨(applyFront_ffr s f).cfg ▸ h.flag, this.a, this.r⟩
+
+end Backend.PA
